@@ -18,9 +18,25 @@ structure Lvl where
   angles : Array Rat := #[]
   op : Op Rat := ⟨0, 0, false, 0, fun _ => 0, fun _ => 0, fun _ _ => 0, fun _ _ => 0, fun _ _ => 0, fun _ _ => 0, fun _ => 0⟩
   opAbs : Op AbsQ := ⟨0, 0, false, ⟨0⟩, fun _ => ⟨0⟩, fun _ => ⟨0⟩, fun _ _ => ⟨0⟩, fun _ _ => ⟨0⟩, fun _ _ => ⟨0⟩, fun _ _ => ⟨0⟩, fun _ => ⟨0⟩⟩
+  /-- the same data in IEEE double, computed as `LevelCache` computes it (`compute_jacobian_elements`) -/
+  opF : Op Float := ⟨0, 0, false, 0, fun _ => 0, fun _ => 0, fun _ _ => 0, fun _ _ => 0, fun _ _ => 0, fun _ _ => 0, fun _ => 0⟩
 
 def field (nt : Nat) (a : Array Rat) : Field Rat := fun i j => a.getD (i * nt + j) 0
 def fieldAbs (nt : Nat) (a : Array Rat) : Field AbsQ := fun i j => absq (a.getD (i * nt + j) 0)
+
+/-- the level's operator data in IEEE double -/
+def parseLevelF (toks : List String) : Op Float :=
+  let nr := toNat! ((kv toks "nr").getD ""); let nt := toNat! ((kv toks "nt").getD "")
+  let radiiF := parseFloatsA ((kv toks "radii").getD ""); let anglesF := parseFloatsA ((kv toks "angles").getD "")
+  let h : Array Float := (Array.range (nr - 1)).map fun i => radiiF[i+1]! - radiiF[i]!
+  let k : Array Float := (Array.range nt).map fun j => anglesF[j+1]! - anglesF[j]!
+  let J := parseFloatsA ((kv toks "J").getD "")
+  let alpha := parseFloatsA ((kv toks "alpha").getD ""); let beta := parseFloatsA ((kv toks "beta").getD "")
+  let el : Array (Float × Float × Float × Float) := (Array.range (nr * nt)).map fun p =>
+    jacobianElements Float.abs (J.getD (4*p) 0) (J.getD (4*p+1) 0) (J.getD (4*p+2) 0) (J.getD (4*p+3) 0) (alpha.getD (p / nt) 0)
+  let fF (a : Array Float) : Field Float := fun i j => a.getD (i * nt + j) 0
+  ⟨nr, nt, (kv toks "bc") == some "1", radiiF.getD 0 0, fun i => h.getD i 0, fun j => k.getD j 0,
+    fF (el.map (·.1)), fF (el.map (·.2.1)), fF (el.map (·.2.2.1)), fF (el.map fun e => Float.abs e.2.2.2), fun i => beta.getD i 0⟩
 
 def parseLevel (toks : List String) : Lvl :=
   let nr := toNat! ((kv toks "nr").getD ""); let nt := toNat! ((kv toks "nt").getD "")
@@ -42,7 +58,7 @@ def parseLevel (toks : List String) : Lvl :=
   let op : Op Rat := ⟨nr, nt, bc, radii.getD 0 0, fun i => h.getD i 0, fun j => k.getD j 0, field nt arr, field nt att, field nt art, field nt det, fun i => beta.getD i 0⟩
   let opAbs : Op AbsQ := ⟨nr, nt, bc, absq (radii.getD 0 0), fun i => absq (h.getD i 0), fun j => absq (k.getD j 0), fA (elA.map (·.1)), fA (elA.map (·.2.1)), fA (elA.map (·.2.2.1)), fieldAbs nt det, fun i => absq (beta.getD i 0)⟩
   { nr := nr, nt := nt, nc := toNat! ((kv toks "nc").getD ""), bc := bc, geo := (kv toks "geo").getD "", coef := (kv toks "coef").getD "",
-    radii := radii, angles := angles, op := op, opAbs := opAbs }
+    radii := radii, angles := angles, op := op, opAbs := opAbs, opF := parseLevelF toks }
 
 structure St where
   stats : Stats := {}
